@@ -1,6 +1,771 @@
 package checks
 
+import (
+	"strconv"
+	"strings"
+)
+
 // Family group "Redir" of C26 (see C26_FAMILY_BRIEF.md). Emits programs through
 // emit(desc, src); desc starts with the family name and a dash.
+//
+// One family name, "redir", with these sub-families (every one a cross
+// product; there are no external commands, so files are read back by a
+// `read` loop and stdin consumers are `read` and functions):
+//
+//	redir-out      output redirection operator(s) x where they are attached
+//	               (function call, builtin, group, subshell, if/for/while/case,
+//	               function definition, [[ ]], (( )), assignment, bare, eval,
+//	               $( ), pipeline stage, background, negation, nested group,
+//	               exec in a subshell) x target file absent / holding two lines
+//	redir-in       input operator (<, 0<, <>, <<<, <<, two of them, <&-, <&0,
+//	               missing file) x consumer (read, two reads in a group, read
+//	               loop function, while/if/for, subshell, function definition,
+//	               nested input, subshell sharing the offset, pipeline stage,
+//	               $( ), exec in a subshell)
+//	redir-exec     `exec` + redirection: how it is reached (direct, function,
+//	               group, redirected group, if, eval, &&, loop, pipeline stage,
+//	               $( ), nested subshell) x operator, inside a subshell
+//	redir-target   form of the target word (quoted, variable with blanks, unset,
+//	               glob, brace, tilde, $( ), mixed quoting) x operator
+//	redir-clobber  noclobber: how it is set x operator x target state
+//	redir-werr     a builtin writing to a closed / full standard output
+//	redir-hdoc     here-document: delimiter quoting x << / <<- x body x consumer
+//	redir-hstr     here-string: word form x consumer
+//	redir-pipe     pipelines of functions: 2..3 stages x status vector x pipefail
+//	               x negation x | / |& x context; stage kinds; stage redirections
+//
+// Left out on purpose: file descriptors 3..9 and {fd}> (recorded class
+// redirection-fd-3-or-higher-unsupported), PIPESTATUS (class
+// pipestatus-unsupported), anything that shows whether the last pipeline
+// stage runs in a subshell (class last-pipeline-stage-runs-in-parent-shell:
+// every non-first stage here only reads all of its input and prints), a
+// non-first stage that does not read its input (SIGPIPE makes the writer's
+// status a race under pipefail).
+
+const c26RedirShow = `show() { if [[ -e $1 ]]; then while IFS= read -r l || [[ -n $l ]]; do echo "$1<$l>"; done <"$1"; else echo "$1:absent"; fi; }` + "\n"
+const c26RedirP = "p() { echo out; echo err >&2; return 3; }\n"
+const c26RedirRd = `rd() { while IFS= read -r l || [[ -n $l ]]; do echo "<$l>"; done; }` + "\n"
+
+type c26RedirItem struct {
+	name, src string
+	core      bool
+}
+
+// c26RedirPrelude returns the helper functions body uses.
+func c26RedirPrelude(body string) string {
+	s := ""
+	if strings.Contains(body, "show ") {
+		s += c26RedirShow
+	}
+	if strings.Contains(body, "p;") || strings.Contains(body, "p ") || strings.Contains(body, " p\n") {
+		s += c26RedirP
+	}
+	if strings.Contains(body, "rd") {
+		s += c26RedirRd
+	}
+	return s
+}
+
+// c26RedirFill puts the redirection text op in place of %R; hbody (the lines
+// of a here-document including the delimiter line, or "") goes after the
+// line that holds %R, or replaces a line "%B" of the template.
+func c26RedirFill(tmpl, op, hbody string) string {
+	lines := strings.Split(tmpl, "\n")
+	explicit := strings.Contains(tmpl, "%B") // the body goes where %B stands
+	var out []string
+	for _, ln := range lines {
+		if ln == "%B" {
+			if hbody != "" {
+				out = append(out, hbody)
+			}
+			continue
+		}
+		has := strings.Contains(ln, "%R")
+		out = append(out, strings.ReplaceAll(ln, "%R", op))
+		if has && hbody != "" && !explicit {
+			out = append(out, hbody)
+		}
+	}
+	return strings.Join(out, "\n")
+}
+
 func c26GenRedir(thorough bool, emit c26EmitFn) {
+	c26RedirOut(thorough, emit)
+	c26RedirIn(thorough, emit)
+	c26RedirExec(thorough, emit)
+	c26RedirTarget(thorough, emit)
+	c26RedirClobber(thorough, emit)
+	c26RedirHdoc(thorough, emit)
+	c26RedirHstr(thorough, emit)
+	c26RedirPipe(thorough, emit)
+}
+
+// ---------------------------------------------------------------- output
+
+var c26RedirOutOps = []c26RedirItem{
+	{"gt", ">o", true},
+	{"app", ">>o", true},
+	{"clob", ">|o", true},
+	{"all", "&>o", true},
+	{"allapp", "&>>o", false},
+	{"dupfile", ">&o", true},
+	{"gt,2>&1", ">o 2>&1", true},
+	{"2>&1,gt", "2>&1 >o", true},
+	{"err", "2>o", false},
+	{"errapp", "2>>o", false},
+	{"1gt", "1>o", false},
+	{"rw1", "1<>o", true},
+	{"rw0", "<>o", false},
+	{"to-err", ">&2", false},
+	{"1to-err", "1>&2", false},
+	{"err-to-out", "2>&1", false},
+	{"cross", "2>&1 >&2", false},
+	{"close", ">&-", false},
+	{"errclose", "2>&-", false},
+	{"two", ">o >q", false},
+	{"out,err", ">o 2>q", false},
+	{"err,dup", "2>o >&2", false},
+	{"app,2>&1", ">>o 2>&1", false},
+	{"gt,app-same", ">o 2>>o", false},
+}
+
+var c26RedirOutSites = []c26RedirItem{
+	{"fn", "p %R", true},
+	{"builtin", "echo out %R", false},
+	{"group", "{ p; } %R", true},
+	{"subshell", "( p ) %R", false},
+	{"if", "if true; then p; fi %R", false},
+	{"for", "for i in 1 2; do p; done %R", true},
+	{"while", "i=; while [[ $i != xx ]]; do i=x$i; p; done %R", false},
+	{"case", "case x in x) p;; esac %R", false},
+	{"fndef", "f() { p; } %R; f; f", true},
+	{"fndef-sub", "f() ( p ) %R; f", false},
+	{"dbr", "[[ -n x ]] %R", false},
+	{"arith", "(( 1 )) %R", false},
+	{"assign", "x=1 %R", false},
+	{"bare", "%R", false},
+	{"eval", "eval p %R", false},
+	{"builtin-kw", "builtin echo out %R", false},
+	{"command-kw", "command echo out %R", false},
+	{"cmdsubst", "x=$(p %R); echo \"x=$x\"", false},
+	{"pipe-first", "p %R | rd", false},
+	{"pipe-last", "echo in | { rd; p; } %R", false},
+	{"bg", "p %R & wait", false},
+	{"negated", "! p %R", false},
+	{"andor", "p %R && echo y || echo n", false},
+	{"nested", "{ p; { p; } %R; p; } >r 2>&1", true},
+	{"exec-sub", "( exec %R; p; p )", true},
+	{"redir-first", "%R p", false},
+	{"redir-mid", "echo %R out", false},
+}
+
+func c26RedirOut(thorough bool, emit c26EmitFn) {
+	pres := []c26RedirItem{{"existing", "echo old1 >o; echo old2 >>o\n", true}, {"absent", "", false}}
+	for _, op := range c26RedirOutOps {
+		for _, site := range c26RedirOutSites {
+			for _, pre := range pres {
+				if !thorough {
+					// quick: core x core on an existing file; every operator at the
+					// function-call site; absent file for the core operators at the
+					// function-call site
+					ok := op.core && site.core && pre.core ||
+						site.name == "fn" && (pre.core || op.core)
+					if !ok {
+						continue
+					}
+				}
+				if op.name == "rw1" && site.name == "cmdsubst" {
+					// bash 5.2 re-reads the text of a command substitution and
+					// takes `1<>o` in it as `1 <>o`
+					continue
+				}
+				if op.name == "close" && (site.name == "nested" || strings.Contains(site.src, "echo out") || strings.Contains(site.src, "echo %R")) {
+					// nested: bash's "write error" message would land in the file
+					// read back; builtins writing to a closed stdout: sub-family werr
+					continue
+				}
+				body := pre.src + c26RedirFill(site.src, op.src, "") + "\necho \"rc=$?\"\nshow o"
+				if strings.Contains(op.src, "q") {
+					body += "\nshow q"
+				}
+				if strings.Contains(site.src, ">r") {
+					body += "\nshow r"
+				}
+				emit("redir-out["+site.name+" "+op.name+" "+pre.name+"]", c26RedirPrelude(body)+body+"\n")
+			}
+		}
+	}
+	// a builtin writing to a closed or full standard output / standard error
+	for _, w := range []c26RedirItem{{"echo", "echo a", true}, {"printf", "printf a", false}} {
+		for _, t := range []c26RedirItem{{"closed", ">&-", true}, {"full", ">/dev/full", true}} {
+			if !thorough && !(w.core && t.core) {
+				continue
+			}
+			emit("redir-werr["+w.name+" "+t.name+"]", w.src+" "+t.src+" 2>e; echo \"rc=$?\"\n"+"while read -r l; do case $l in in:*) echo \"$l\";; esac; done <e\n")
+		}
+	}
+}
+
+// ---------------------------------------------------------------- input
+
+const c26RedirHbody = "h1\nh2\nh3\nE"
+
+var c26RedirInOps = []struct {
+	name, src, hbody string
+	core             bool
+}{
+	{"lt", "<i", "", true},
+	{"0lt", "0<i", "", false},
+	{"rw", "<>i", "", true},
+	{"hstr", "<<<\"h1\"", "", true},
+	{"hdoc", "<<E", c26RedirHbody, true},
+	{"two", "<j <i", "", true},
+	{"close", "<&-", "", false},
+	{"dup0", "<&0", "", false},
+	{"devnull", "</dev/null", "", false},
+	{"missing", "<nofile", "", true},
+	{"lt,gt", "<i >o", "", false},
+	{"gt,lt", ">o <i", "", false},
+	{"hdoc,lt", "<<E <i", c26RedirHbody, false},
+	{"lt,hdoc", "<i <<E", c26RedirHbody, false},
+	{"hstr,hdoc", "<<<\"s1\" <<E", c26RedirHbody, false},
+	{"lt,close", "<i <&-", "", false},
+}
+
+var c26RedirInSites = []c26RedirItem{
+	{"read", "read a %R\necho \"rc=$? <$a>\"", false},
+	{"read2", "{ read a; read b; } %R\necho \"rc=$? <$a><$b>\"", true},
+	{"rdfn", "rd %R\necho \"rc=$?\"", false},
+	{"while", "while read l; do echo \"[$l]\"; done %R\necho \"rc=$?\"", false},
+	{"if", "if read a; then echo \"T<$a>\"; else echo F; fi %R\necho \"rc=$?\"", false},
+	{"for", "for i in 1 2; do read a; echo \"$i<$a>\"; done %R\necho \"rc=$?\"", true},
+	{"subshell", "( read a; echo \"<$a>\" ) %R\necho \"rc=$?\"", false},
+	{"fndef", "f() { read a; echo \"$?<$a>\"; } %R\nf; f\necho \"rc=$?\"", true},
+	{"nested", "{ read a; { read b; } <j; read c; } %R\necho \"rc=$? <$a><$b><$c>\"", true},
+	{"nested-fn", "g() { read b; }; { read a; g <j; read c; } %R\necho \"rc=$? <$a><$b><$c>\"", false},
+	{"sub-offset", "{ read a; ( read b; echo \"s<$b>\" ); read c; echo \"<$a><$c>\"; } %R\necho \"rc=$?\"", true},
+	{"cs-offset", "{ read a; x=$(read b; echo \"s<$b>\"); read c; echo \"<$a>$x<$c>\"; } %R\necho \"rc=$?\"", false},
+	{"pipe-stage", "echo x | { read a; echo \"<$a>\"; } %R\necho \"rc=$?\"", false},
+	{"pipe-first", "{ read a; echo \"$a\"; read a; echo \"$a\"; } %R | rd\necho \"rc=$?\"", false},
+	{"cmdsubst", "x=$(read a %R\necho \"<$a>\"); echo \"rc=$? $x\"", false},
+	{"exec-sub", "( exec %R\nread a; read b; echo \"<$a><$b>\" )\necho \"rc=$?\"", true},
+	{"andor", "read a %R && echo \"y<$a>\" || echo \"n<$a>\"", false},
+	{"prefix-assign", "IFS=1 read a b %R\necho \"rc=$? <$a><$b>\"", false},
+	{"bg", "{ read a; echo \"<$a>\"; } %R &\nwait\necho \"rc=$?\"", false},
+}
+
+func c26RedirIn(thorough bool, emit c26EmitFn) {
+	const pre = "echo l1 >i; echo l2 >>i; echo l3 >>i; echo j1 >j\n"
+	for _, op := range c26RedirInOps {
+		for _, site := range c26RedirInSites {
+			if !thorough && !(op.core && site.core) {
+				continue
+			}
+			if site.name == "cs-offset" && strings.Contains(op.src, "<&-") {
+				continue // bash hangs: with fd 0 closed the command substitution's pipe becomes its stdin
+			}
+			body := pre + c26RedirFill(site.src, op.src, op.hbody)
+			if strings.Contains(op.src, ">o") {
+				body += "\nshow o"
+			}
+			emit("redir-in["+site.name+" "+op.name+"]", c26RedirPrelude(body)+body+"\n")
+		}
+	}
+}
+
+// ---------------------------------------------------------------- exec
+
+func c26RedirExec(thorough bool, emit c26EmitFn) {
+	wheres := []c26RedirItem{
+		{"direct", "exec %R", true},
+		{"fn", "f() { exec %R; }; f", true},
+		{"group", "{ exec %R; }", false},
+		{"group-redirected", "{ exec %R; } >q", true},
+		{"group-redirected-in", "{ exec %R; } <j", true},
+		{"if", "if true; then exec %R; fi", false},
+		{"eval", "eval \"exec %R\"", true},
+		{"andor", "true && exec %R", false},
+		{"for", "for i in 1; do exec %R; done", false},
+		{"pipe-stage", "exec %R | true", false},
+		{"cmdsubst", "x=$(exec %R; echo in)", false},
+		{"subshell", "( exec %R )", true},
+		{"twice", "exec %R; exec %R", false},
+		{"then-restore", "exec %R; exec >&2", false},
+	}
+	outOps := []c26RedirItem{{"gt", ">o", true}, {"app", ">>o", true}, {"err-to-out", "2>&1", false}, {"all", "&>o", false}, {"err", "2>o", true}}
+	inOps := []c26RedirItem{{"lt", "<i", true}, {"hstr", "<<<\"h1\"", false}}
+	for _, w := range wheres {
+		for _, op := range outOps {
+			if !thorough && !(w.core && op.core) {
+				continue
+			}
+			body := "echo old >o\n( " + strings.ReplaceAll(w.src, "%R", op.src) + "; p; echo after )\necho \"rc=$?\"\nshow o"
+			if strings.Contains(w.src, ">q") {
+				body += "\nshow q"
+			}
+			emit("redir-exec[out "+w.name+" "+op.name+"]", c26RedirPrelude(body)+body+"\n")
+		}
+		for _, op := range inOps {
+			if w.name == "then-restore" || !thorough && !(w.core && op.core) {
+				continue
+			}
+			body := "echo l1 >i; echo l2 >>i; echo l3 >>i; echo j1 >j\n( read z; " + strings.ReplaceAll(w.src, "%R", op.src) + "; read a; read b; echo \"<$z><$a><$b>\" ) <<<\"s1\"\necho \"rc=$?\""
+			if strings.Contains(w.src, ">q") {
+				body += "\nshow q"
+			}
+			emit("redir-exec[in "+w.name+" "+op.name+"]", c26RedirPrelude(body)+body+"\n")
+		}
+	}
+	// exec <file in the main shell: the offset is shared by every later reader
+	readers := []c26RedirItem{
+		{"plain", "read %V", true},
+		{"fn", "g%V() { read %V; }; g%V", false},
+		{"subshell", "( read x; echo \"s<$x>\" )", true},
+		{"cmdsubst", "%V=$(read x; echo \"c$x\")", false},
+		{"group", "{ read %V; }", false},
+		{"while", "while read %V; do break; done", false},
+		{"other-file", "read %V <j", true},
+		{"pipe-first", "{ read x; echo \"$x\"; } | rd", false},
+		{"bg", "{ read x; echo \"b<$x>\"; } & wait", false},
+	}
+	for _, r1 := range readers {
+		for _, r2 := range readers {
+			if !thorough && !(r1.core && r2.core) {
+				continue
+			}
+			if (r1.name == "bg" || r2.name == "bg") && r1.name != "plain" && r2.name != "plain" {
+				continue // a background job reads the shell's stdin (bash: /dev/null): a finding, two programs are enough
+			}
+			body := "echo l1 >i; echo l2 >>i; echo l3 >>i; echo l4 >>i; echo j1 >j\nexec <i\nread a\n" +
+				strings.ReplaceAll(r1.src, "%V", "b") + "\n" + strings.ReplaceAll(r2.src, "%V", "c") + "\nread d\necho \"rc=$? <$a><$b><$c><$d>\""
+			emit("redir-exec[main-in "+r1.name+" "+r2.name+"]", c26RedirPrelude(body)+body+"\n")
+		}
+	}
+}
+
+// ---------------------------------------------------------------- target word
+
+func c26RedirTarget(thorough bool, emit c26EmitFn) {
+	words := []c26RedirItem{
+		{"dq", "\"o 1\"", true},
+		{"sq", "'o 1'", false},
+		{"escaped-blank", "o\\ 1", true},
+		{"var", "$f", true},
+		{"var-dq", "\"$f\"", true},
+		{"var-blank", "$fb", true},
+		{"var-blank-dq", "\"$fb\"", false},
+		{"unset", "$u", true},
+		{"empty-dq", "\"\"", false},
+		{"glob-one", "o*", true},
+		{"glob-none", "zz*", false},
+		{"glob-two", "m*", false},
+		{"glob-dq", "\"o*\"", false},
+		{"brace", "{o,q}", false},
+		{"tilde", "~", false},
+		{"cmdsubst", "$(echo o)", true},
+		{"cmdsubst-blank", "$(echo o 1)", false},
+		{"arith", "$((1+1))", false},
+		{"mixed", "\"o\"'1'$f", false},
+		{"array-all", "${arr[@]}", false},
+		{"array-one", "${arr[0]}", false},
+		{"param-default", "${u:-o}", false},
+		{"dir", ".", false},
+		{"devnull", "/dev/null", false},
+		{"dash-dq", "\"-\"", false},
+		{"digit-dq", "\"1\"", false},
+	}
+	ops := []c26RedirItem{{"gt", ">", true}, {"app", ">>", false}, {"lt", "<", true}, {"all", "&>", false}, {"dup", ">&", false}}
+	// what exists: o (one line), m1 m2, variables
+	const pre = "echo old >o; echo old >m1; echo old >m2; f=o; fb='o 1'; arr=(o q)\n"
+	const list = "for n in *; do show \"$n\"; done"
+	for _, w := range words {
+		for _, op := range ops {
+			if !thorough && !(w.core && op.core) {
+				continue
+			}
+			if op.name == "dup" && (w.name == "glob-dq" || w.name == "dash-dq") {
+				// bash globs the quoted word after >& (a quirk); >&"-" closes
+				// stdout and echo fails: sub-family werr
+				continue
+			}
+			var body string
+			if op.name == "lt" {
+				body = pre + "echo two >'o 1'\nread a " + op.src + w.src + "\necho \"rc=$? <$a>\""
+			} else {
+				body = pre + "echo new " + op.src + w.src + "\necho \"rc=$?\"\n" + list
+			}
+			emit("redir-target["+op.name+" "+w.name+"]", c26RedirPrelude(body)+body+"\n")
+		}
+	}
+}
+
+// ---------------------------------------------------------------- noclobber
+
+func c26RedirClobber(thorough bool, emit c26EmitFn) {
+	sets := []c26RedirItem{{"set-C", "set -C", true}, {"set-o", "set -o noclobber", false}, {"set-C-off", "set -C; set +C", false}, {"in-subshell", "( set -C ); echo sub", false}}
+	ops := []c26RedirItem{{"gt", ">o", true}, {"clob", ">|o", true}, {"app", ">>o", false}, {"all", "&>o", false}, {"dupfile", ">&o", false}, {"rw1", "1<>o", false}, {"err", "2>o", false}, {"devnull", ">/dev/null", false}, {"gt,gt", ">o >o", false}}
+	pres := []c26RedirItem{{"existing", "echo old >o\n", true}, {"absent", "", false}, {"empty", ">o\n", false}}
+	sites := []c26RedirItem{{"builtin", "echo new %R", true}, {"group", "{ echo new; } %R", false}, {"bare", "%R", false}}
+	for _, s := range sets {
+		for _, op := range ops {
+			for _, pre := range pres {
+				for _, site := range sites {
+					// set -C is not supported by the interpreter (every program with
+					// an existing target differs): kept to a handful of programs
+					if !(s.core && op.core && pre.core && site.core) && !(thorough && pre.core && site.core && (s.name == "set-o" && op.name == "gt" || s.core && op.name == "app" || s.name == "set-C-off" && op.name == "gt")) {
+						continue
+					}
+					body := pre.src + s.src + "\n" + strings.ReplaceAll(site.src, "%R", op.src) + "\necho \"rc=$?\"\ncase $- in *C*) echo C;; esac\nshow o"
+					emit("redir-clobber["+s.name+" "+op.name+" "+pre.name+" "+site.name+"]", c26RedirPrelude(body)+body+"\n")
+				}
+			}
+		}
+	}
+}
+
+// ---------------------------------------------------------------- here-documents
+
+type c26RedirBody struct {
+	name  string
+	lines []string
+	core  bool
+}
+
+var c26RedirBodies = []c26RedirBody{
+	{"plain", []string{"a b", "  c  "}, true},
+	{"var", []string{"a $v ${v}x $u."}, true},
+	{"cmdsubst", []string{"$(echo cs) `echo bq` $((1+2))"}, true},
+	{"bs-newline", []string{"c\\", "d"}, true},
+	{"bs-dollar", []string{"\\$v \\\\ \\x \\\" \\` \\$(echo no)"}, true},
+	{"quotes", []string{"\"dq\" 'sq' \"$v\" '$v' $'x'"}, true},
+	{"tabs", []string{"\ta\tb", "c\t", "$v\tx", "$v\\", "\ty"}, true},
+	{"delim-trailing-space", []string{"E ", "x"}, true},
+	{"delim-leading-space", []string{" E", "EE", "xE"}, false},
+	{"empty", nil, true},
+	{"empty-line", []string{"", "a", ""}, false},
+	{"multiline-var", []string{"[$nl]"}, false},
+	{"param-ops", []string{"${u:-def} ${v#V} ${#v} ${v:+alt}"}, false},
+	{"param-quotes", []string{"${u:-\"x  y\"} ${u:-'x'} ${v:+\"$v\"}"}, false},
+	{"no-glob-brace-tilde", []string{"* ~ {a,b} a#b # c"}, false},
+	{"lone-dollar", []string{"a $ b$", "$"}, false},
+	{"var-with-backslash", []string{"$w"}, false},
+	{"bs-before-delim", []string{"a\\\\", "b"}, false},
+	{"cmdsubst-multiline", []string{"$(echo x; echo y)z"}, false},
+	{"nested-hdoc", []string{"$(rd <<F", "inner $v", "F", ")"}, false},
+	{"positional", []string{"$1 $# \"$@\" $*"}, false},
+	{"status", []string{"$? $(st 4; echo $?)"}, false},
+	{"semicolon-etc", []string{"a; b | c & d > e < f ( g )"}, false},
+	{"cr-bang", []string{"a!b !! !x"}, false},
+}
+
+var c26RedirHdocConsumers = []c26RedirItem{
+	{"rd", "rd %R", true},
+	{"read2", "read a b %R\necho \"<$a><$b>\"", true},
+	{"while", "while IFS= read -r l; do echo \"[$l]\"; done %R", false},
+	{"group", "{ rd; } %R", false},
+	{"subshell", "( rd ) %R", true},
+	{"if", "if read l; then echo \"T[$l]\"; fi %R", false},
+	{"andor", "rd %R && echo y", false},
+	{"same-line", "rd %R; echo same-line", true},
+	{"with-gt", "rd %R >o\nshow o", false},
+	{"gt-before", "rd >o %R\nshow o", false},
+	{"pipe-first", "rd %R | rd", true},
+	{"pipe-last", "echo z | rd %R", true},
+	{"two-cmds", "rd %R; rd <<F\n@F", true},
+	{"two-on-one", "rd <<F %R\n@F\n%B", true},
+	{"two-on-one-rev", "rd %R <<F\n@F", false},
+	{"fndef-redir", "f() { rd; } %R\nf; f", true},
+	{"negated", "! rd %R", false},
+	{"bg", "rd %R &\nwait", false},
+	{"arg-after", "rd %R ignored-arg", false},
+}
+
+// consumers whose here-document sits inside another construct: %H is the
+// whole "rd <<E\nbody\nE" text
+var c26RedirHdocWrappers = []c26RedirItem{
+	{"in-fn", "f() {\n%H\n}\nf x; f y", true},
+	{"in-cmdsubst", "x=$(%H\n); echo \"x=$x\"", true},
+	{"in-cmdsubst-dq", "x=\"$(%H\n)\"; echo \"x=$x\"", false},
+	{"in-case", "case x in x)\n%H\n;; esac", false},
+	{"in-for", "for i in 1 2; do\n%H\ndone", false},
+	{"in-if", "if true; then\n%H\nfi", false},
+	{"in-subshell", "(\n%H\n)", false},
+	{"in-group-piped", "{\n%H\n} | rd", false},
+	{"in-while-cond", "n=; while [[ $n != xx ]] && n=x$n &&\n%H\ndo echo body; done", false},
+	{"in-backquotes", "x=`%H\n`; echo \"x=$x\"", false},
+}
+
+func c26RedirHdocText(delimWord string, dash bool, b c26RedirBody, delim string) (op, body string) {
+	op = "<<" + delimWord
+	tab := ""
+	if dash {
+		op = "<<-" + delimWord
+		tab = "\t"
+	}
+	var ls []string
+	for i, l := range b.lines {
+		t := tab
+		if dash && i%2 == 1 {
+			t = "\t\t"
+		}
+		ls = append(ls, t+l)
+	}
+	ls = append(ls, tab+delim)
+	return op, strings.Join(ls, "\n")
+}
+
+func c26RedirHdoc(thorough bool, emit c26EmitFn) {
+	const pre = "v=V; nl=$'x\\ny'; w='a\\b\\\\c'; set -- p1 'p 2'; st() { return $1; }\n"
+	delims := []c26RedirItem{{"E", "E", true}, {"'E'", "'E'", true}, {"\"E\"", "\"E\"", true}, {"\\E", "\\E", true}, {"E'x'", "E'x'", false}, {"\"\"", "\"\"", false}, {"E-F", "E-F", false}}
+	second := func(s string) string { // the second here-document of the two-* consumers
+		return strings.ReplaceAll(s, "@F", "second $v\nF")
+	}
+	for _, d := range delims {
+		delim := strings.NewReplacer("'", "", "\"", "", "\\", "").Replace(d.src)
+		for _, dash := range []bool{false, true} {
+			dn := "<<"
+			if dash {
+				dn = "<<-"
+			}
+			for _, b := range c26RedirBodies {
+				if delim != "E" && strings.HasPrefix(b.name, "delim-") {
+					continue
+				}
+				if dash && b.name == "nested-hdoc" {
+					continue // the parser does not find the tab-indented inner delimiter (a syntax matter)
+				}
+				for _, c := range c26RedirHdocConsumers {
+					if !thorough {
+						// quick: every delimiter form x dash x four bodies read by rd;
+						// every core consumer with the var and bs-newline bodies, plain <<E
+						qb := b.name == "var" || b.name == "bs-newline" || b.name == "bs-dollar" || b.name == "tabs"
+						ok := d.core && qb && c.name == "rd" ||
+							d.name == "E" && !dash && c.core && (b.name == "var" || b.name == "bs-newline")
+						if !ok {
+							continue
+						}
+					} else if !(c.name == "rd" || d.core && c.core && b.core || !dash && (d.name == "E" || d.name == "'E'")) {
+						// thorough: all delimiters x dash x bodies read by rd; core
+						// delimiters x dash x core consumers x core bodies; <<E and
+						// <<'E' with every consumer and body
+						continue
+					}
+					if b.name == "param-quotes" && (c.name != "rd" || dash) {
+						continue // '…' inside ${…} keeps its quotes in bash: a finding, kept small
+					}
+					op, hb := c26RedirHdocText(d.src, dash, b, delim)
+					body := pre + second(c26RedirFill(c.src, op, hb)) + "\necho \"rc=$?\""
+					emit("redir-hdoc["+c.name+" "+dn+d.name+" "+b.name+"]", c26RedirPrelude(body)+body+"\n")
+				}
+				for _, wr := range c26RedirHdocWrappers {
+					if !thorough && !(d.name == "E" && !dash && wr.core && (b.name == "var" || b.name == "bs-newline")) {
+						continue
+					}
+					if thorough && (d.name != "E" && d.name != "'E'" || dash && !b.core) {
+						continue
+					}
+					if b.name == "param-quotes" {
+						continue
+					}
+					if wr.name == "in-backquotes" && strings.ContainsAny(strings.Join(b.lines, ""), "`\\") {
+						continue // backquotes have an escaping level of their own
+					}
+					op, hb := c26RedirHdocText(d.src, dash, b, delim)
+					body := pre + strings.ReplaceAll(wr.src, "%H", "rd "+op+"\n"+hb) + "\necho \"rc=$?\""
+					emit("redir-hdoc["+wr.name+" "+dn+d.name+" "+b.name+"]", c26RedirPrelude(body)+body+"\n")
+				}
+			}
+		}
+	}
+}
+
+// ---------------------------------------------------------------- here-strings
+
+func c26RedirHstr(thorough bool, emit c26EmitFn) {
+	const pre = "v='a  b'; nl=$'x\\ny'; nl2=$'x\\n\\n'; set -- p1 'p  2'; arr=(e1 'e  2'); y=a:b\n"
+	words := []c26RedirItem{
+		{"lit", "a", true},
+		{"dq", "\"a  b\"", true},
+		{"sq", "'a  b'", false},
+		{"escaped", "a\\ \\ b", true},
+		{"var", "$v", true},
+		{"var-dq", "\"$v\"", true},
+		{"nl", "$nl", true},
+		{"nl-dq", "\"$nl\"", true},
+		{"trailing-nl", "\"$nl2\"", true},
+		{"empty-dq", "\"\"", true},
+		{"unset", "$u", true},
+		{"cmdsubst", "$(echo c  s)", false},
+		{"cmdsubst-dq", "\"$(echo a; echo b)\"", false},
+		{"glob", "a*", false},
+		{"tilde", "~", false},
+		{"brace", "{a,b}", false},
+		{"at", "$@", true},
+		{"at-dq", "\"$@\"", true},
+		{"star", "$*", false},
+		{"star-dq", "\"$*\"", false},
+		{"arr-at-dq", "\"${arr[@]}\"", false},
+		{"arr-at", "${arr[@]}", false},
+		{"mixed", "a\"b\"'c'$v", false},
+		{"ansi-c", "$'t\\tb'", false},
+		{"bs-in-dq", "\"a\\nb\"", false},
+		{"ifs-colon", "$y", false},
+		{"arith", "$((1+2))", false},
+		{"dollar-dq", "\"a\\$v\"", false},
+	}
+	consumers := []c26RedirItem{
+		{"rd", "rd <<<%W", true},
+		{"read2", "read a b <<<%W\necho \"<$a><$b>\"", false},
+		{"spaced", "rd <<< %W", false},
+		{"group", "{ rd; } <<<%W", false},
+		{"fndef", "f() { rd; } <<<%W\nf; f", false},
+		{"pipe-last", "echo z | rd <<<%W", false},
+		{"two", "rd <<<first <<<%W", false},
+		{"while", "while read -r l; do echo \"[$l]\"; done <<<%W", false},
+		{"in-cmdsubst", "x=$(rd <<<%W); echo \"x=$x\"", false},
+		{"ifs", "IFS=:; rd <<<%W", false},
+	}
+	for _, w := range words {
+		for _, c := range consumers {
+			if !thorough && !(w.core && c.core) {
+				continue
+			}
+			body := pre + strings.ReplaceAll(c.src, "%W", w.src) + "\necho \"rc=$?\""
+			emit("redir-hstr["+c.name+" "+w.name+"]", c26RedirPrelude(body)+body+"\n")
+		}
+	}
+}
+
+// ---------------------------------------------------------------- pipelines
+
+func c26RedirPipe(thorough bool, emit c26EmitFn) {
+	// e TAG STATUS: prints TAG, also on stderr; m TAG STATUS: copies its
+	// input, tagged, then the same. Every stage after the first reads all of
+	// its input.
+	const pre = "e() { echo $1; echo E$1 >&2; return $2; }\nm() { while IFS= read -r l; do echo \"$1<$l>\"; done; echo E$1 >&2; return $2; }\n"
+	vectors := func(n int) []string {
+		var out []string
+		for mask := 0; mask < 1<<n; mask++ {
+			s := ""
+			for i := 0; i < n; i++ {
+				if mask>>i&1 != 0 {
+					s += strconv.Itoa(i + 2)
+				} else {
+					s += "0"
+				}
+			}
+			out = append(out, s)
+		}
+		return out
+	}
+	pipeline := func(n int, bar string) string {
+		s := "e a ${v:0:1}"
+		for i := 1; i < n; i++ {
+			s += " " + bar + " m " + string(rune('a'+i)) + " ${v:" + strconv.Itoa(i) + ":1}"
+		}
+		return s
+	}
+	fixed := func(n int, bar, v string) string {
+		s := pipeline(n, bar)
+		for i := 0; i < n; i++ {
+			s = strings.ReplaceAll(s, "${v:"+strconv.Itoa(i)+":1}", v[i:i+1])
+		}
+		return s
+	}
+	maxN := 3
+	if thorough {
+		maxN = 4
+	}
+	// (a) status of the pipeline: all status vectors in one program
+	for n := 2; n <= maxN; n++ {
+		for _, pf := range []string{"", "set -o pipefail\n"} {
+			for _, neg := range []string{"", "! "} {
+				for _, bar := range []string{"|", "|&"} {
+					if !thorough && bar == "|&" && (n == 3 || neg != "") {
+						continue
+					}
+					emit("redir-pipe[status n="+strconv.Itoa(n)+" pipefail="+strconv.Itoa(len(pf)/16)+" neg="+strconv.Itoa(len(neg)/2)+" "+bar+"]",
+						pre+pf+"for v in "+strings.Join(vectors(n), " ")+"; do\n"+neg+pipeline(n, bar)+"\necho \"v$v:$?\"\ndone\n")
+				}
+			}
+		}
+	}
+	// (b) the pipeline inside a context, one status vector per program
+	ctxs := []c26RedirItem{
+		{"errexit", "set -e\n%P\necho \"rc=$?\"", true},
+		{"if", "if %P; then echo T; else echo \"F$?\"; fi\necho \"rc=$?\"", false},
+		{"if-not", "if ! %P; then echo T; else echo \"F$?\"; fi\necho \"rc=$?\"", false},
+		{"andor", "%P && echo y || echo \"n$?\"", false},
+		{"errexit-andor", "set -e\n%P || echo \"n$?\"\necho \"rc=$?\"", false},
+		{"errexit-negated", "set -e\n! %P\necho \"rc=$?\"", false},
+		{"fn", "f() { %P; }\nf\necho \"rc=$?\"", true},
+		{"fn-errexit", "set -e\nf() { %P; echo \"in$?\"; }\nf\necho \"rc=$?\"", false},
+		{"subshell", "( %P )\necho \"rc=$?\"", false},
+		{"cmdsubst", "x=$(%P)\necho \"rc=$? $x\"", false},
+		{"cmdsubst-arg", "g() { echo \"$?:$1\"; }; g \"$(%P)\"", false},
+		{"group-gt", "{ %P; } >o\necho \"rc=$?\"\nshow o", false},
+		{"while-cond", "k=0; while %P; do k=x$k; [[ $k == xx0 ]] && break; done\necho \"rc=$? $k\"", false},
+		{"until-cond", "k=0; until %P; do k=x$k; [[ $k == xx0 ]] && break; done\necho \"rc=$? $k\"", false},
+		{"bg-wait", "%P &\nwait $!\necho \"rc=$?\"", false},
+		{"err-trap", "trap 'echo \"ERR$?\"' ERR\n%P\necho \"rc=$?\"", false},
+		{"nested-pipe", "{ %P; echo \"in$?\"; } | m z 0\necho \"rc=$?\"", true},
+		{"last-of-list", "true; %P\necho \"rc=$?\"", false},
+		{"exit-trap", "trap 'echo \"EXIT$?\"' EXIT\nset -e\n%P\necho \"rc=$?\"", false},
+	}
+	for _, cx := range ctxs {
+		for n := 2; n <= 3; n++ {
+			for _, pf := range []string{"", "set -o pipefail\n"} {
+				for _, v := range vectors(n) {
+					if !thorough && !(cx.core && n == 2) {
+						continue
+					}
+					body := pf + strings.ReplaceAll(cx.src, "%P", fixed(n, "|", v))
+					emit("redir-pipe[ctx "+cx.name+" pipefail="+strconv.Itoa(len(pf)/16)+" v="+v+"]", pre+c26RedirPrelude(body)+body+"\n")
+				}
+			}
+		}
+	}
+	// (c) what a stage is: kind x position x failing or not, pipefail on
+	kinds := []c26RedirItem{
+		{"fn", "%F", true},
+		{"group", "{ %F; }", true},
+		{"subshell", "( %F )", false},
+		{"group-exit", "{ %F; exit $?; }", false}, // not in the last position
+		{"subshell-exit", "( %F; exit $? )", true},
+		{"for", "for k in 1; do %F; done", false},
+		{"if", "if true; then %F; fi", false},
+		{"if-cond", "if %F; then true; else false; fi", false},
+		{"case", "case x in x) %F;; esac", false},
+		{"andor", "{ true && %F; }", true},
+		{"negated-group", "{ ! %F; }", false},
+		{"eval", "eval '%F'", false},
+		{"cmdsubst-echo", "{ x=$(%F); s=$?; echo \"$x\"; st $s; }", false},
+		{"redir-err", "%F 2>&1", true},
+		{"redir-devnull", "%F >/dev/null", false},
+		{"redir-file", "%F >o", false},
+		{"nested", "{ %F | m n 0; }", false},
+		{"bg-wait", "{ %F & wait $!; }", false},
+	}
+	for _, k := range kinds {
+		for pos := 0; pos < 3; pos++ {
+			for _, fail := range []bool{false, true} {
+				if !thorough && !(k.core && (fail || pos == 1)) {
+					continue
+				}
+				if k.name == "group-exit" && pos == 2 {
+					continue // would show whether the last stage runs in a subshell
+				}
+				stg := []string{"e a 0", "m b 0", "m c 0"}
+				if fail {
+					stg[pos] = stg[pos][:4] + "5"
+				}
+				stg[pos] = strings.ReplaceAll(k.src, "%F", stg[pos])
+				body := "st() { return $1; }\nset -o pipefail\n" + strings.Join(stg, " | ") + "\necho \"rc=$?\""
+				if strings.Contains(k.src, ">o") {
+					body += "\nshow o"
+				}
+				emit("redir-pipe[stage "+k.name+" pos="+strconv.Itoa(pos)+" fail="+strconv.FormatBool(fail)+"]", pre+c26RedirPrelude(body)+body+"\n")
+			}
+		}
+	}
 }
